@@ -496,7 +496,12 @@ fn case(src: &mut Src, ctx: &mut Ctx, med: Med, part: &'static str) -> Result<()
                 }
             }
             4 => {
-                let dt = *src.pick(&[0i64, 1, 1000, 61_000, 3_600_000, 10, 200, 55_000, 1_800_000]);
+                let dt = if w.dhcp_configured && src.bool() {
+                    // around the renewal / rebinding / expiry instants of the leases the grammar hands out
+                    *src.pick(&[55_000i64, 1_800_000, 3_500_000, 5_000, 40_000])
+                } else {
+                    *src.pick(&[0i64, 1, 1000, 61_000, 3_600_000, 10, 200, 55_000, 1_800_000])
+                };
                 w.now += dt;
                 ctx.note(|| format!("  time advances by {} ms to {} ms", dt, w.now));
                 ctx.label("step:time");
